@@ -45,6 +45,15 @@ def _same_length(en, a, b):
 def _elementwise(en, a, b, f, name):
   # results are new arrays: the operands' getters are captured now, so a later in-place store into an operand does not leak into them
   if _is_seq(a) and _is_seq(b):
+    def one(s_):
+      ln = z3.simplify(E.to_z3(s_.length))
+      if z3.is_int_value(ln):
+        return ln.as_long() == 1
+      return not en._sat(ln != 1)
+    if one(b) and not one(a):              # numpy broadcasting of a length-1 axis
+      return _elementwise(en, a, b.get(0), f, name)
+    if one(a) and not one(b):
+      return _elementwise(en, a.get(0), b, f, name)
     _same_length(en, a, b)
     ga, gb = a.get, b.get
     return E.SymSeq(a.length, lambda i: f(ga(i), gb(i)), None, f'({a.name}{name}{b.name})')
